@@ -29,6 +29,8 @@ CFG = {
         "Swat4.C16.C16_holder_counterexample",
         "Swat4.C16.C16_holder_completes",
         "Swat4.C16.C16_interleaved",
+        "Swat4.C16.address_hypotheses_needed",
+        "Swat4.C16.stale_readd_unbacked",
     ],
     "shards": (1, 16),
     "nontrivial": _nontrivial,
@@ -59,6 +61,8 @@ CFG = {
                 "all three mark-setting paths, reports/keepalives add no mark, only an outcome of a probe of that goal clears a mark, marked servers "
                 "are skipped). The correspondence run validates the model on the real code: every crash and fault placement at every storage command "
                 "of every mark-setting or mark-consuming use case, Backed oracle (backedB, proved correct: backedB_correct) on the final keyspace. "
+                "stale_readd_unbacked: a further race in the model (no crash, no fault; needs a popper and a removal between a reporter's lookup and "
+                "its Add, which stores the stale marked copy) — outside the harness' scenarios, reported. "
                 "Two genuine violations are recorded as known findings with signatures (holder-loss: the destructive pop; consumed-before-mark: enqueue "
                 "and mark are not atomic and a popper ran in between); any other orphaned mark is a violation.",
         "level_note": "Proved for all inputs at the level of the call-granularity model: per-program crash/fault invariance (single client, clock fixed during "
